@@ -303,7 +303,7 @@ def shard_lines(ctx, text_or_path, nshards, marker='\\"k\\":\\"case\\"', every=1
     return paths, total, len(cases)
 
 
-def run_sharded(ctx, argv_for_shard, shard_paths, timeout=1200):
+def run_sharded(ctx, argv_for_shard, shard_paths, timeout=3000):
     """run one harness process per shard in parallel (the library's error
     constructor takes a stack trace under a global runtime lock, so goroutine
     parallelism inside one process does not scale); returns merged result"""
